@@ -165,6 +165,27 @@ func DegenerateShapes(r *R) []Degenerate {
 		f.Services = []*ir.Service{s}
 		add("wide_message_many_methods", f)
 	}
+	// 12a. a request of more than 6 MiB: an imported tree of 40 files with 40 messages of four fields whose
+	// names take 1000 characters each (the generated file itself is small)
+	{
+		f := mk("bigreq", "d.bigreq")
+		f.Messages = []*ir.Message{{Name: "Q", Fields: []*ir.Field{{Name: "v", Number: 1, Kind: "string"}}}}
+		f.Services = []*ir.Service{svcFor("d.bigreq", "Q", "Q")}
+		var deps []*ir.File
+		for i := 0; i < 40; i++ {
+			d := &ir.File{Name: fmt.Sprintf("bigreq/dep%d.proto", i), Package: fmt.Sprintf("d.bigreq.dep%d", i), GoPackage: fmt.Sprintf("example.com/gen/bigreq/dep%d;dep%d", i, i)}
+			for j := 0; j < 40; j++ {
+				m := &ir.Message{Name: fmt.Sprintf("M%d", j)}
+				for k := 1; k <= 4; k++ {
+					m.Fields = append(m.Fields, &ir.Field{Name: fmt.Sprintf("f%d_%s", k, strings.Repeat("n", 1000)), Number: int32(k), Kind: "string"})
+				}
+				d.Messages = append(d.Messages, m)
+			}
+			deps = append(deps, d)
+			f.Deps = append(f.Deps, d.Name)
+		}
+		add("request_of_6_MiB", f, deps...)
+	}
 	// 12b. many services in one file, many files with one service each in one invocation
 	for _, n := range []int{9, 12, 70} {
 		f := mk(fmt.Sprintf("manysvc%d", n), fmt.Sprintf("d.manysvc%d", n))
